@@ -104,6 +104,10 @@ class IR(AuxDataContainer):
         ir.modules.extend(
             Module._from_protobuf(m, ir) for m in proto_ir.modules
         )
+        # entry points that name a code block of a module decoded later
+        for module in ir.modules:
+            if module._pending_entry_point is not None:
+                module._resolve_entry_point(module._pending_entry_point, ir)
         ir.cfg = CFG._from_protobuf(proto_ir.cfg.edges, ir)
         ir.aux_data.update(
             AuxDataContainer._read_protobuf_aux_data(proto_ir.aux_data, ir)
